@@ -23,6 +23,18 @@ def polygon_coords(rng, t0, f0, w, h, holes):
 
 
 def random_geometry(rng, kind, tmax=10.0, edge=False):
+    """a valid geometry (polygons: valid in the OGC sense -- holes inside the shell, no self-intersection)"""
+    for _ in range(50):
+        g = _random_geometry(rng, kind, tmax, edge)
+        if kind not in ("Polygon", "MultiPolygon"):
+            return g
+        from soundevent.geometry.conversion import geometry_to_shapely
+        if geometry_to_shapely(g).is_valid:
+            return g
+    return g
+
+
+def _random_geometry(rng, kind, tmax=10.0, edge=False):
     t0 = rng.choice([0.0, rng.uniform(0, tmax)]) if edge else rng.uniform(0.1, tmax)
     w = rng.uniform(0.05, 3.0)
     f0 = rng.choice([0.0, rng.uniform(0, 20000)]) if edge else rng.uniform(100, 20000)
